@@ -20,6 +20,7 @@ type exprPrinter struct {
 	full  bool // redundant parentheses and white space everywhere
 	tight bool // minimal parentheses, no optional spaces
 	here  bool // a root template ending in a newline as heredoc
+	brk   bool // line breaks inside the brackets of for expressions, tuples and objects (no redundant parentheses)
 	root  map[string]any
 }
 
@@ -210,7 +211,7 @@ func (p *exprPrinter) expr(n map[string]any) string {
 		for _, a := range listOf(n["items"]) {
 			is = append(is, p.child(nodeOf(a), 0))
 		}
-		if p.full {
+		if p.full || p.brk {
 			return "[\n" + strings.Join(is, ",\n") + "\n]"
 		}
 		return "[" + strings.Join(is, ","+sp) + "]"
@@ -220,7 +221,7 @@ func (p *exprPrinter) expr(n map[string]any) string {
 		for i := range keys {
 			is = append(is, keys[i].(string)+sp+"="+sp+p.child(nodeOf(vals[i]), 0))
 		}
-		if p.full {
+		if p.full || p.brk {
 			return "{\n" + strings.Join(is, "\n") + "\n}"
 		}
 		return "{" + strings.Join(is, ","+sp) + "}"
@@ -238,24 +239,32 @@ func (p *exprPrinter) expr(n map[string]any) string {
 		if kv := n["kv"].(string); kv != "" {
 			vars = kv + "," + sp + vars
 		}
-		s := "[for " + vars + " in " + p.child(nodeOf(n["coll"]), 0) + sp + ":" + sp + p.child(nodeOf(n["body"]), 0)
+		open, close := "[", "]"
+		if p.full || p.brk { // line breaks (and a comment) inside the brackets are insignificant
+			open, close = "[ # c\n", "\n]"
+		}
+		s := open + "for " + vars + " in " + p.child(nodeOf(n["coll"]), 0) + sp + ":" + sp + p.child(nodeOf(n["body"]), 0)
 		if c := nodeOf(n["cnd"]); c["k"] != "none" {
 			s += " if " + p.child(c, 0)
 		}
-		return s + "]"
+		return s + close
 	case "foro":
 		vars := n["v"].(string)
 		if kv := n["kv"].(string); kv != "" {
 			vars = kv + "," + sp + vars
 		}
-		s := "{for " + vars + " in " + p.child(nodeOf(n["coll"]), 0) + sp + ":" + sp + p.child(nodeOf(n["key"]), 0) + sp + "=>" + sp + p.child(nodeOf(n["val"]), 0)
+		open, close := "{", "}"
+		if p.full || p.brk {
+			open, close = "{\n", "\n}"
+		}
+		s := open + "for " + vars + " in " + p.child(nodeOf(n["coll"]), 0) + sp + ":" + sp + p.child(nodeOf(n["key"]), 0) + sp + "=>" + sp + p.child(nodeOf(n["val"]), 0)
 		if g, _ := n["grp"].(bool); g {
 			s += "..."
 		}
 		if c := nodeOf(n["cnd"]); c["k"] != "none" {
 			s += " if " + p.child(c, 0)
 		}
-		return s + "}"
+		return s + close
 	}
 	panic(fmt.Sprintf("harness-error: expression node %v", n["k"]))
 }
